@@ -479,6 +479,8 @@ class Engine(StmtMixin, EvalMixin, Interp):
         X["itertools.groupby"] = self.ext_groupby
         X["itertools.product"] = self.ext_product
         X["heapq.merge"] = self.ext_heapq_merge
+        X["bisect.bisect_right"] = X["bisect.bisect"] = lambda interp, a, k: self.ext_bisect(a, k, right=True)
+        X["bisect.bisect_left"] = lambda interp, a, k: self.ext_bisect(a, k, right=False)
         # the operator module: function forms of the binary / in-place operators (same semantics as the syntax)
         _bin = {"add": ast.Add, "sub": ast.Sub, "mul": ast.Mult, "floordiv": ast.FloorDiv, "mod": ast.Mod,
                 "or_": ast.BitOr, "and_": ast.BitAnd, "xor": ast.BitXor}
@@ -918,6 +920,37 @@ class Engine(StmtMixin, EvalMixin, Interp):
             out.append(keyed[best][heads[best]][1])
             heads[best] += 1
         return SymIter(out, 0)
+
+    def ext_bisect(self, args, kw, right):
+        """bisect.bisect_right / bisect_left(a, x, lo=0, hi=len(a)): CPython's own binary search, step by step (so the
+        answer on a list that is NOT sorted is CPython's answer too); comparisons of symbolic members fork.  Lists of
+        concrete length only (a symbolic-length list is Unsupported: the caller's finite scopes take over)."""
+        self.trusted_used.add("bisect")
+        if kw.get("key") is not None:
+            raise Unsupported("bisect(key=...)")
+        a = list(self.iterate_concrete(args[0]))
+        x = args[1]
+        lo = args[2] if len(args) > 2 else kw.get("lo", 0)
+        hi = args[3] if len(args) > 3 else kw.get("hi")
+        hi = len(a) if hi is None else hi
+        if not (isinstance(lo, int) and isinstance(hi, int)):
+            raise Unsupported("bisect with symbolic lo / hi")
+        if lo < 0:
+            raise PyExc("ValueError", "lo must be non-negative")
+        while lo < hi:
+            mid = (lo + hi) // 2
+            lt = self.sym_lt("<", x, a[mid]) if right else self.sym_lt("<", a[mid], x)
+            if right:
+                if self.branch(lt):
+                    hi = mid
+                else:
+                    lo = mid + 1
+            else:
+                if self.branch(lt):
+                    lo = mid + 1
+                else:
+                    hi = mid
+        return lo
 
     def ext_product(self, interp, args, kw):
         """itertools.product(*iterables): tuples in lexicographic (odometer) order; concrete-length operands only."""
